@@ -425,6 +425,29 @@ func H_C10_agree_%[1]s(kind, i int) {
 	zzrt.Cover("end")
 }
 
+// H_C10_subset_%[1]s: ANY subset of the required fields may be missing (the required-field check
+// of FastRead works on a bitset, word by word): FastRead fails exactly when the standard Read
+// fails, i.e. exactly when the subset is not empty.
+func H_C10_subset_%[1]s() {
+	zzLen = 0
+	var v *%[2]s
+	zzWithPresenceBudget(0, func() { v = zzSym_%[1]s(zzDepth) })
+	want := zzFrom_%[1]s(v)
+	skip := map[int16]bool{}
+	for _, f := range zzSt_%[1]s.Fields {
+		if f.Req == 1 && zzrt.Bool("missing") {
+			skip[f.ID] = true
+		}
+	}
+	b := zzEncMod(zzT_%[1]s, want, zzMod{SkipSet: skip})
+	ps, pf := New%[2]s(), New%[2]s()
+	errS := ps.Read(zzProtoOver(b))
+	_, errF := pf.FastRead(b)
+	zzrt.Assert((errS != nil) == (len(skip) > 0), "the standard Read fails exactly when a required field is missing")
+	zzrt.Assert((errF != nil) == (len(skip) > 0), "FastRead fails exactly when a required field is missing")
+	zzrt.Cover("end")
+}
+
 // H_C10_trunc_%[1]s: every proper prefix of a valid encoding makes FastRead return an error (no panic).
 func H_C10_trunc_%[1]s(seed, n int) {
 	zzLen = n
@@ -470,6 +493,7 @@ func c10Harnesses(prog *MProgram) []Harness {
 				Harness{Func: "H_C10_append_" + s.Name, Quick: rng(0, 1), Thorough: rng(0, 2), Covers: []string{"end"}},
 				Harness{Func: "H_C10_fastread_" + s.Name, Quick: rng(0, 1), Thorough: rng(0, 2), Covers: []string{"end"}},
 				Harness{Func: "H_C10_agree_" + s.Name, Quick: tuples(seq(0, 2), seq(0, nf)), Covers: []string{"end"}},
+				Harness{Func: "H_C10_subset_" + s.Name, Covers: []string{"end"}},
 				Harness{Func: "H_C10_trunc_" + s.Name, Quick: tuples(seq(1, 3), seq(1, 1)), Thorough: tuples(seq(1, 8), seq(0, 2)), Covers: []string{"end"}},
 				Harness{Func: "H_C10_corrupt_" + s.Name, Quick: tuples(seq(1, 3), seq(1, 1)), Thorough: tuples(seq(1, 8), seq(1, 2)), Covers: []string{"end"}, AllowInconclusive: []string{"hugealloc"}},
 			)
@@ -482,7 +506,7 @@ func init() {
 	register(&Prop{
 		ID: "C10", QuickBudget: 25 * time.Minute, ThoroughBudget: 90 * time.Minute,
 		Functions:   []string{"generated BLength / FastAppend / FastWrite / FastWriteNocopy / FastRead (k-*.go) and the standard Read/Write of the fastgo backend", "cloudwego/gopkg v0.2.0 protocol/thrift BinaryProtocol (interpreted; Skip replaced by a safe-Go model with the same contract)", "reference codec (harness)"},
-		Bounds:      "corpus a.thrift under -g fastgo; values as in C02 (n<=1 quick, <=2 thorough); robustness on 3 (thorough 8) fixed pseudo-random values per struct-like: every truncation point of the reference encoding; every type byte (field header, STOP, list/set element type, map key/value type) replaced by a FREE byte; unknown / retagged / deleted field agreement with the standard Read",
+		Bounds:      "corpus a.thrift under -g fastgo; values as in C02 (n<=1 quick, <=2 thorough); robustness on 3 (thorough 8) fixed pseudo-random values per struct-like: every truncation point of the reference encoding; every type byte (field header, STOP, list/set element type, map key/value type) replaced by a FREE byte; unknown / retagged / deleted field agreement with the standard Read (first 4 presence decisions symbolic); ANY subset of the required fields missing (all 2^14 subsets of the 14 required fields of Many, 2^9 of Nine)",
 		Assumptions: []string{"gopkg's BinaryProtocol.Skip (raw pointer walk) is replaced by the safe-Go model /verif/harness/gencommon/zzskip (a defect inside Skip itself would be invisible, its over-run behaviour is mirrored)", "an allocation with a symbolic size >= 2^24 ends the path (reported as tolerated 'hugealloc', only in the corruption harness)", "the programs dimension is the designed corpus"},
 		Variants: []*Prop{
 			{Label: "fastgo", Pkg: "zzgen/a", NoOverlay: true, Diff: []string{"D_GEN_roundtrip"}, Prepare: func(r *runner) error {
@@ -530,14 +554,14 @@ func init() {
 	register(&Prop{
 		ID:          "C09",
 		Functions:   []string{"generated Read/Write of two schema versions (harness/c09gen old.thrift, new.thrift)", "default branch of the Read switch (Skip)", "apache thrift TBinaryProtocol.Skip (interpreted)"},
-		Bounds:      "one designed pair (old, new): new adds an optional scalar, a default struct field, a map of lists, an optional double with default, an optional struct at the root; an optional string and a list inside a nested struct (also reached through list elements and map values); a union arm; an enum member. All scalar leaves of the newer value symbolic (full width), presence of every added/optional member symbolic, containers of length 1 (plus unknown lists of 3, 63, 64, 65 and 130 elements at top level, inside an unknown struct and inside an unknown map under keep_unknown_fields: the codec's nesting budget is 64); chains new->old, old->new, new->old->new->old",
+		Bounds:      "one designed pair (old, new): new adds an optional scalar, a default struct field, a map of lists, an optional double with default, an optional struct at the root; an optional string and a list inside a nested struct (also reached through list elements and map values); a union arm; an enum member; optional bool, byte, i16, enum, binary, set and memberless-struct fields at the end of the root and a bool at the end of a nested struct (each possibly the last unknown field). All scalar leaves of the newer value symbolic (full width), presence of every added/optional member symbolic, containers of length 1 (plus unknown lists of 3, 63, 64, 65 and 130 elements at top level, inside an unknown struct and inside an unknown map under keep_unknown_fields: the codec's nesting budget is 64); chains new->old, old->new, new->old->new->old",
 		Assumptions: []string{"the (old,new) pairs dimension is this one designed pair", "keep_unknown_fields round trip is checked in variant 'keep' when the reflective protocol adapter can be executed"},
 		Variants: []*Prop{
 			{Label: "default", Pkg: "zzgen/c09/all", NoOverlay: true, Diff: []string{"D_C09_1"}, Harnesses: hs, Prepare: func(r *runner) error {
 				return prepareStatic(r, "c09gen", []string{"all.thrift", "old.thrift", "new.thrift"}, "go", "", "c09/all")
 			}},
 			{Label: "keep", Pkg: "zzgen/c09/all", NoOverlay: true, Diff: []string{"D_C09_1"},
-				Harnesses: append(append([]Harness{}, hs...), Harness{Func: "H_C09_keep", Covers: []string{"end"}}, Harness{Func: "H_C09_keep_none", Covers: []string{"end"}}, Harness{Func: "H_C09_keep_long", Quick: [][]int64{{3}, {63}, {64}, {65}, {130}}, Covers: []string{"end"}}),
+				Harnesses: append(append([]Harness{}, hs...), Harness{Func: "H_C09_keep", Covers: []string{"end"}}, Harness{Func: "H_C09_keep_none", Covers: []string{"end"}}, Harness{Func: "H_C09_keep_kinds", Covers: []string{"end"}}, Harness{Func: "H_C09_keep_long", Quick: [][]int64{{3}, {63}, {64}, {65}, {130}}, Covers: []string{"end"}}),
 				Prepare: func(r *runner) error {
 					if err := prepareStatic(r, "c09gen", []string{"all.thrift", "old.thrift", "new.thrift"}, "go", "keep_unknown_fields", "c09/all"); err != nil {
 						return err
